@@ -302,7 +302,8 @@ def ctx_tree(spec):
     return ["cont", "dict", [
         [V("reads"), ["cont", "list", [["getctx", p, d] for p, d in spec.get("reads", [])]]],
         [V("children"), ["cont", "list", [["call", "ctx_tree", [V(sub)], {}, dict(opts)] for opts, sub in spec.get("children", [])]]],
-        [V("dflt"), C("dflt_ctx", V(0))] if spec.get("dflt") else [V("dflt"), V(None)],
+        # a child whose expression-valued default reads the context, optionally under its own override
+        [V("dflt"), ["call", "dflt_ctx", [V(0)], {}, dict(spec.get("dflt_opts") or {})]] if spec.get("dflt") else [V("dflt"), V(None)],
     ]]
 
 
